@@ -74,31 +74,194 @@ def stored_names(n: ast.AST, attr: str, aliases: set[str]) -> set[str]:
     return out
 
 
+def memo_attribute(eng: Engine, parser: ClassInfo) -> str:
+    """The attribute of Parser that __init__ creates as an empty mapping and another method indexes."""
+    init = parser.methods.get("__init__")
+    if init is None:
+        raise AnalysisError("Parser.__init__ not found")
+    cands = []
+    for n in walk_local(init.node):
+        if isinstance(n, (ast.Assign, ast.AnnAssign)) and n.value is not None:
+            ts = n.targets if isinstance(n, ast.Assign) else [n.target]
+            v = n.value
+            empty_map = (isinstance(v, ast.Dict) and not v.keys) or (isinstance(v, ast.Call) and call_name(v) in ("dict", "OrderedDict", "defaultdict", "LRUCache") )
+            for t in ts:
+                if self_attr(t) and empty_map:
+                    cands.append(self_attr(t))
+    used = []
+    for a in cands:
+        for m in parser.methods.values():
+            if m.name == "__init__":
+                continue
+            if any(isinstance(n, ast.Subscript) and self_attr(n.value) == a for n in walk_local(m.node)) or \
+               any(isinstance(n, ast.Compare) and any(self_attr(c) == a for c in n.comparators) for n in walk_local(m.node)):
+                used.append(a)
+                break
+    if len(used) != 1:
+        raise AnalysisError(f"Parser: expected exactly one memo mapping, found {used}")
+    return used[0]  # type: ignore[return-value]
+
+
+def memo_helpers(parser: ClassInfo, memo: str) -> tuple[dict[str, int], dict[str, tuple[int, int]]]:
+    """Small methods that wrap the memo: getters {name: index of the key parameter} return an entry (self.M.get(k) / self.M[k]),
+    setters {name: (key index, value index)} store a parameter under a parameter (self.M[k] = v).  Indices are positions among the
+    non-self parameters."""
+    getters: dict[str, int] = {}
+    setters: dict[str, tuple[int, int]] = {}
+    for m in parser.methods.values():
+        if m.name in ("__init__", "parse_forest") or m.is_generator():
+            continue
+        ps = [p for p in m.params() if p != "self"]
+        for n in walk_local(m.node):
+            if isinstance(n, ast.Assign) and len(n.targets) == 1 and isinstance(n.targets[0], ast.Subscript) and self_attr(n.targets[0].value) == memo \
+                    and isinstance(n.targets[0].slice, ast.Name) and n.targets[0].slice.id in ps and isinstance(n.value, ast.Name) and n.value.id in ps:
+                setters[m.name] = (ps.index(n.targets[0].slice.id), ps.index(n.value.id))
+        if m.name in setters:
+            continue
+        reads = []
+        for n in walk_local(m.node):
+            if isinstance(n, ast.Subscript) and self_attr(n.value) == memo and isinstance(n.slice, ast.Name) and n.slice.id in ps and isinstance(n.ctx, ast.Load):
+                reads.append(n.slice.id)
+            if isinstance(n, ast.Call) and isinstance(n.func, ast.Attribute) and n.func.attr == "get" and self_attr(n.func.value) == memo and n.args and isinstance(n.args[0], ast.Name) and n.args[0].id in ps:
+                reads.append(n.args[0].id)
+        if reads and any(isinstance(n, ast.Return) and n.value is not None for n in walk_local(m.node)):
+            getters[m.name] = ps.index(reads[0])
+    return getters, setters
+
+
+def key_constructions(parser: ClassInfo, memo: str, getters: dict[str, int], setters: dict[str, tuple[int, int]]) -> list[tuple[FuncInfo, ast.AST, int]]:
+    """(function, key expression, line) for every expression used as a key of the memo, traced through local variables
+    and through the key parameter of the helper methods back to where the key is built."""
+    out: list[tuple[FuncInfo, ast.AST, int]] = []
+
+    def resolve(f: FuncInfo, e: ast.AST, line: int, depth: int = 0) -> None:
+        if depth > 4:
+            return
+        if isinstance(e, ast.Name):
+            ps = [p for p in f.params() if p != "self"]
+            defs = [n for n in walk_local(f.node) if isinstance(n, (ast.Assign, ast.AnnAssign)) and n.value is not None
+                    and any(isinstance(t, ast.Name) and t.id == e.id for t in (n.targets if isinstance(n, ast.Assign) else [n.target]))]
+            if defs:
+                for d in defs:
+                    resolve(f, d.value, d.lineno, depth + 1)  # type: ignore[arg-type]
+                return
+            if e.id in ps:
+                idx = ps.index(e.id)
+                for g in parser.methods.values():
+                    for c in walk_local(g.node):
+                        if isinstance(c, ast.Call) and isinstance(c.func, ast.Attribute) and self_attr(c.func) == f.name and len(c.args) > idx:
+                            resolve(g, c.args[idx], c.lineno, depth + 1)
+                return
+        out.append((f, e, line))
+
+    for m in parser.methods.values():
+        for n in walk_local(m.node):
+            k = None
+            if isinstance(n, ast.Subscript) and self_attr(n.value) == memo:
+                k = n.slice
+            elif isinstance(n, ast.Compare) and len(n.ops) == 1 and isinstance(n.ops[0], (ast.In, ast.NotIn)) and self_attr(n.comparators[0]) == memo:
+                k = n.left
+            elif isinstance(n, ast.Call) and isinstance(n.func, ast.Attribute) and n.func.attr in ("get", "pop", "setdefault", "move_to_end") and self_attr(n.func.value) == memo and n.args:
+                k = n.args[0]
+            if k is not None and not any(self_attr(x) == memo for x in ast.walk(k)):  # keys taken from the memo itself: eviction / maintenance
+                resolve(m, k, n.lineno)
+    # one entry per (function, expression text)
+    seen = set()
+    uniq = []
+    for f, e, ln in out:
+        key = (f.fq, norm(e))
+        if key not in seen:
+            seen.add(key)
+            uniq.append((f, e, ln))
+    return uniq
+
+
+def rule_e(chk: Check, eng: Engine, parser: ClassInfo, memo: str, getters, setters, rule: str = "R12-e", only: Optional[set[str]] = None) -> None:
+    """R12-e key completeness: every variable handed to the producer of a forest (the call iterated on the miss path) is a
+    component of the memo key built in the same function - otherwise two requests that differ in it share an entry."""
+    kcs = key_constructions(parser, memo, getters, setters)
+    if not kcs:
+        raise AnalysisError("Parser: no construction of a memo key found")
+    for f, e, ln in kcs:
+        if not isinstance(e, ast.Tuple):
+            chk.bad(rule, eng.relfile(f), ln, f.fq, f"memo key `{short(e, 60)}` is not a tuple of the request's parameters", "the key's coverage cannot be established", keyparts="key-shape")
+            continue
+        key_names = {n.id for el in e.elts for n in ast.walk(el) if isinstance(n, ast.Name)}
+        producers = []
+        for n in walk_local(f.node):
+            if isinstance(n, ast.For) and isinstance(n.iter, ast.Call) and isinstance(n.iter.func, ast.Attribute) and isinstance(n.iter.func.value, (ast.Name, ast.Attribute)) \
+                    and norm(n.iter.func.value).split(".")[0] == "self" and any(isinstance(y, (ast.Yield, ast.YieldFrom)) for y in ast.walk(n)):
+                producers.append(n.iter)
+        if not producers:
+            raise AnalysisError(f"{f.fq}: no producer loop (`for tree in self.<producer>(...)` with a yield) found next to the memo key")
+        for pc in producers:
+            args = list(pc.args) + [k.value for k in pc.keywords]
+            used = sorted({n.id for a in args for n in ast.walk(a) if isinstance(n, ast.Name)} - {"self"})
+            missing = [u for u in used if u not in key_names and (only is None or u in only)]
+            if only is not None and not (set(used) & only):
+                raise AnalysisError(f"{f.fq}: the producer call no longer takes {sorted(only)}")
+            if missing:
+                chk.bad(rule, eng.relfile(f), ln, f.fq, f"memo key `{short(e, 70)}` omits `{', '.join(missing)}`, which `{short(pc, 50)}` depends on",
+                        "two parse requests that differ only in that value share one memo entry: the second is answered with the forest of the first "
+                        "(e.g. a prefix-mode forest served to a complete-mode parse)", keyparts="key-omits|" + ",".join(missing))
+            else:
+                chk.ok(rule, f.fq, ln, f"memo key `{short(e, 60)}` covers every input of `{short(pc, 40)}`: {used if only is None else sorted(only)}")
+
+
 def run(chk: Check, eng: Engine) -> None:
     chk.rule("R12-a", "a parse-forest memo entry is published only after the producing loop is exhausted; only Parser writes the memo", floor=2)
     chk.rule("R12-b", "no tree object is both stored in the memo and handed out (collapse() results alias their argument)", floor=2)
     chk.rule("R12-c", "every IterativeParser attribute written while consuming input is reset by new_parse", floor=5)
     chk.rule("R12-d", "hit path and miss path of the memo yield under the same conditions on boolean parameters", floor=2)
+    chk.rule("R12-e", "the memo key covers every variable the forest producer is called with", floor=1)
     chk.not_decided += ["that the Earley run itself is a function of (grammar, word)", "on-disk spec cache"]
 
     parser = eng.cls(f"{PMOD}.parser", "Parser")
     pf = eng.method(parser, "parse_forest")
     cfg = eng.cfg(pf)
     file = eng.relfile(pf)
-    # memo attribute: the dict tested with `key in self.X`
-    memo = None
-    hit_if = None
-    for n in cfg.nodes:
-        if n.kind == "if":
-            t = n.ast.test  # type: ignore[union-attr]
-            if isinstance(t, ast.Compare) and len(t.ops) == 1 and isinstance(t.ops[0], (ast.In, ast.NotIn)) and self_attr(t.comparators[0]):
-                if hit_if is None:
-                    memo = self_attr(t.comparators[0])
-                    hit_if = n
-    if memo is None or hit_if is None:
-        raise AnalysisError("Parser.parse_forest: memo idiom `key in self.<cache>` not found")
-    hit_is_true = isinstance(hit_if.ast.test.ops[0], ast.In)  # type: ignore[union-attr]
+    # memo attribute: the dict-like attribute of Parser that is created empty in __init__ and indexed by a key elsewhere
+    memo = memo_attribute(eng, parser)
+    getters, setters = memo_helpers(parser, memo)
 
+    def is_memo_read(e: ast.AST) -> bool:
+        """self.M[k] | self.M.get(k) | self.<getter>(k)"""
+        if isinstance(e, ast.Subscript) and self_attr(e.value) == memo:
+            return True
+        if isinstance(e, ast.Call) and isinstance(e.func, ast.Attribute):
+            if e.func.attr == "get" and self_attr(e.func.value) == memo:
+                return True
+            if self_attr(e.func) in getters:
+                return True
+        return False
+
+    def setter_call(n: ast.AST) -> Optional[ast.Call]:
+        for c in ast.walk(n):
+            if isinstance(c, ast.Call) and isinstance(c.func, ast.Attribute) and self_attr(c.func) in setters:
+                return c
+        return None
+
+    # hit test: `key in self.M` / `key not in self.M`, or a None / truth test of a variable read from the memo
+    memo_read_names = {t.id for n in walk_local(pf.node) if isinstance(n, (ast.Assign, ast.AnnAssign)) and n.value is not None and is_memo_read(n.value)
+                       for t in (n.targets if isinstance(n, ast.Assign) else [n.target]) if isinstance(t, ast.Name)}
+    hit_if = None
+    hit_is_true = True
+    for n in cfg.nodes:
+        if n.kind == "if" and hit_if is None:
+            t = n.ast.test  # type: ignore[union-attr]
+            if isinstance(t, ast.Compare) and len(t.ops) == 1 and isinstance(t.ops[0], (ast.In, ast.NotIn)) and self_attr(t.comparators[0]) == memo:
+                hit_if, hit_is_true = n, isinstance(t.ops[0], ast.In)
+            elif isinstance(t, ast.Compare) and len(t.ops) == 1 and isinstance(t.ops[0], (ast.Is, ast.IsNot)) and isinstance(t.left, ast.Name) and t.left.id in memo_read_names \
+                    and isinstance(t.comparators[0], ast.Constant) and t.comparators[0].value is None:
+                hit_if, hit_is_true = n, isinstance(t.ops[0], ast.IsNot)
+            elif isinstance(t, ast.Name) and t.id in memo_read_names:
+                hit_if, hit_is_true = n, True
+            elif isinstance(t, ast.UnaryOp) and isinstance(t.op, ast.Not) and isinstance(t.operand, ast.Name) and t.operand.id in memo_read_names:
+                hit_if, hit_is_true = n, False
+    if hit_if is None:
+        raise AnalysisError(f"Parser.parse_forest: no hit test of the memo `{memo}` found (`key in self.{memo}` or a None test of a value read from it)")
+
+    rule_e(chk, eng, parser, memo, getters, setters)
     yields = [n for n in cfg.nodes if n.kind == "stmt" and isinstance(n.ast, ast.Expr) and isinstance(n.ast.value, (ast.Yield, ast.YieldFrom))]
     if not yields:
         raise AnalysisError("Parser.parse_forest: no yield")
@@ -109,7 +272,12 @@ def run(chk: Check, eng: Engine) -> None:
             for t in n.targets:
                 if isinstance(t, ast.Subscript) and self_attr(t.value) == memo and isinstance(n.value, ast.Name):
                     aliases.add(n.value.id)
-    stores = [n for n in cfg.nodes if n.kind == "stmt" and n.ast is not None and is_memo_attr_store(n.ast, memo)]
+        sc = setter_call(n) if isinstance(n, ast.Expr) else None
+        if sc is not None:
+            for a_ in sc.args[1:]:
+                if isinstance(a_, ast.Name):
+                    aliases.add(a_.id)
+    stores = [n for n in cfg.nodes if n.kind == "stmt" and n.ast is not None and (is_memo_attr_store(n.ast, memo) or setter_call(n.ast) is not None)]
     if not stores:
         chk.ok("R12-a", pf.fq, pf.line, "no memo store at all (nothing is cached)", nontrivial=False)
     for s in stores:
@@ -155,18 +323,23 @@ def run(chk: Check, eng: Engine) -> None:
         if s.kind == "stmt" and s.ast is not None:
             for nm in stored_names(s.ast, memo, aliases):
                 store_uses.append((s.id, nm))
+            sc = setter_call(s.ast)
+            if sc is not None:
+                for a_ in sc.args[1:]:
+                    for nm in uses_in(a_):
+                        store_uses.append((s.id, nm))
     # loop variables iterating the memo entry (hit path) are memo objects by definition
     memo_defs: set[tuple[int, str]] = set()
     memo_list_names = set(aliases)
     for n in cfg.nodes:
-        if n.kind == "stmt" and isinstance(n.ast, ast.Assign) and isinstance(n.ast.value, ast.Subscript) and self_attr(n.ast.value.value) == memo:
+        if n.kind == "stmt" and isinstance(n.ast, ast.Assign) and is_memo_read(n.ast.value):
             for t in n.ast.targets:
                 if isinstance(t, ast.Name):
                     memo_list_names.add(t.id)
     for n in cfg.nodes:
         if n.kind == "for":
             it = n.ast.iter  # type: ignore[union-attr]
-            if (isinstance(it, ast.Name) and it.id in memo_list_names) or (isinstance(it, ast.Subscript) and self_attr(it.value) == memo):
+            if (isinstance(it, ast.Name) and it.id in memo_list_names) or is_memo_read(it):
                 if isinstance(n.ast.target, ast.Name):  # type: ignore[union-attr]
                     memo_defs.add((n.id, n.ast.target.id))  # type: ignore[union-attr]
     for sid, nm in store_uses:
@@ -351,6 +524,13 @@ from ..mutants import M  # noqa: E402
 _P = "src/fandango/language/grammar/parser/parser.py"
 _IP = "src/fandango/language/grammar/parser/iterative_parser.py"
 MUTANTS = [
+    M("forest-key-drops-mode", _P, "        cache_key = (word, start, mode, hookin_parent, starter_bit)\n", "        cache_key = (word, start, hookin_parent, starter_bit)\n", "R12-e"),
+    M("forest-key-drops-starter-bit", _P, "        cache_key = (word, start, mode, hookin_parent, starter_bit)\n", "        cache_key = (word, start, mode, hookin_parent)\n", "R12-e"),
+    M("forest-key-through-helper-drops-mode", _P, "        cache_key = (word, start, mode, hookin_parent, starter_bit)\n        forest: list[DerivationTree]\n        if cache_key in self._cache:\n            forest = self._cache[cache_key]\n",
+      "        cache_key = (word, start, hookin_parent, starter_bit)\n        forest: list[DerivationTree]\n        cached = self._cached_forest(cache_key)\n        if cached is not None:\n            forest = cached\n", "R12-e",
+      more=(("        self._cache: dict[\n            tuple[\n                str | bytes,\n                NonTerminal,\n                ParsingMode,\n                Optional[DerivationTree],\n                int,\n            ],\n            list[DerivationTree],\n        ] = {}\n",
+             "        self._cache: dict = {}\n\n    def _cached_forest(self, key):\n        forest = self._cache.get(key)\n        return forest\n\n    def _cache_forest(self, key, forest) -> None:\n        self._cache[key] = forest\n        while len(self._cache) > 2048:\n            self._cache.pop(next(iter(self._cache)))\n"),
+            ("        self._cache[cache_key] = forest\n", "        self._cache_forest(cache_key, forest)\n"))),
     M("store-inside-loop", _P, "            forest.append(tree)\n", "            forest.append(tree)\n            self._cache[cache_key] = forest\n", "R12-a"),
     M("store-in-finally", _P, "        forest = []\n        for tree in self._parse_forest(", "        forest = []\n        self._cache[cache_key] = forest\n        for tree in self._parse_forest(", "R12-a"),
     M("yield-cached-object", _P, "                yield deepcopy(tree)\n", "                yield tree\n", "R12-b"),
@@ -362,6 +542,11 @@ MUTANTS = [
     M("new-parse-keeps-first-consume", _IP, "        self._first_consume = True\n        self._incomplete.clear()", "        self._incomplete.clear()", "R12-c"),
 ]
 TWINS = [
+    M("twin-forest-memo-behind-helpers", _P, "        cache_key = (word, start, mode, hookin_parent, starter_bit)\n        forest: list[DerivationTree]\n        if cache_key in self._cache:\n            forest = self._cache[cache_key]\n",
+      "        cache_key = (word, start, mode, hookin_parent, starter_bit)\n        forest: list[DerivationTree]\n        cached = self._cached_forest(cache_key)\n        if cached is not None:\n            forest = cached\n", None,
+      more=(("        self._cache: dict[\n            tuple[\n                str | bytes,\n                NonTerminal,\n                ParsingMode,\n                Optional[DerivationTree],\n                int,\n            ],\n            list[DerivationTree],\n        ] = {}\n",
+             "        self._cache: dict = {}\n\n    def _cached_forest(self, key):\n        forest = self._cache.get(key)\n        return forest\n\n    def _cache_forest(self, key, forest) -> None:\n        self._cache[key] = forest\n        while len(self._cache) > 2048:\n            self._cache.pop(next(iter(self._cache)))\n"),
+            ("        self._cache[cache_key] = forest\n", "        self._cache_forest(cache_key, forest)\n"))),
     M("twin-comment-and-blank", _P, "        self._cache[cache_key] = forest\n", "\n        # store the complete forest\n        self._cache[cache_key] = forest\n", None),
     M("twin-copy-call", _P, "                yield deepcopy(tree)\n", "                cp = deepcopy(tree)\n                yield cp\n", None),
 ]
